@@ -8,7 +8,7 @@ import re
 from vlib.core import AnalysisError, Report
 from vlib.grammar import GrammarModel
 from vlib.nodemodel import NodeModel
-from vlib.match import X, calls, closure, deref, facts, has_call, nodes
+from vlib.match import X, atoms, calls, closure, deref, facts, has_call, nodes
 from vlib.srcindex import ClassInfo, FuncInfo, SourceIndex, attr_chain, const_str, unparse, walk_no_nested
 
 EXPLANATION = (
@@ -258,6 +258,17 @@ def rule_c(rep: Report, idx: SourceIndex) -> None:
 		r.skip('cache-key', f.where, 'NodeResolver.resolve no longer uses the __insts cache')
 	else:
 		r.check(all(isinstance(k, ast.Name) and k.id == 'full_path' and k.id in params for k in keys), 'cache-key', f.where, f'the instance cache must be keyed by the full path alone: keys {[unparse(k) for k in keys]}')
+	# the cache holds resolved instances only: every store is the candidate class instantiated after its match_feature accepted (a provisional
+	# entry would survive a failed resolution and answer later queries for the same path)
+	for n in nodes(fx, ast.Assign):
+		if not (isinstance(n.targets[0], ast.Subscript) and unparse(n.targets[0].value).endswith('__insts')):
+			continue
+		v = deref(fx, n.value)
+		inst = isinstance(v, ast.Call) and unparse(v.func).endswith('__invoker') and v.args and unparse(v.args[0]) != 'Node'
+		cand = unparse(v.args[0]) if inst else ''
+		# accepted: inside the branch where match_feature answered true, or after the selected class was tested for None (selection in a helper)
+		accepted = any((p_ and 'match_feature' in unparse(a)) or (not p_ and unparse(a) == f'{cand} is None') for a, p_ in atoms(fx, n))
+		r.check(bool(accepted and inst), f'cache-write:{unparse(n)[:50]}', (RESOLVER, n.lineno), f'`{unparse(n)}` stores into the instance cache outside the accepted branch (or stores the plain Node dummy): if no class accepts, or a matcher raises, the entry stays and later queries for this path get it instead of the UnresolvedNode error, so the class of a node depends on which query ran first', unparse(n))
 	verdict, msg = first_accepting(idx)
 	if verdict == 'skip':
 		r.skip('first-accepting', f.where, msg)
